@@ -155,6 +155,12 @@ def run(c):
             for t in fl.split('+'):
                 if t.startswith('ms'): ms = int(t[2:])
             c.tv(plan_of(c, hs, ms), fl, 'wipe', max_cost=20.0)
+    # share configurations in which fewer shares are used than a masked word has room for: the masked objects only
+    mh = [(n, f) for n, f in hs if n.startswith('mstate.') or n.startswith('mkey') or '_masked.' in n]
+    cfgs = ['ks2+ds2', 'ks3+ds2', 'c32+ks2+ds1'] + (['c64+ks3+ds3', 'ks2+ds1+ms3'] if th else [])
+    build_many(cfgs)
+    for fl in cfgs:
+        c.tv(plan_of(c, mh, 4 if 'ms3' not in fl else 3), fl, 'wipemasked', max_cost=20.0)
     drv, cmd, out = build_extra('cxx')
     if drv: c.tv(plan_of(c, cxx_histories()), 'rel', 'wipecxx', drv=drv, max_cost=20.0)
     c.cov['exhaustive'] = True
